@@ -133,6 +133,15 @@ func (m *Machine) externalUncached(fn *ssa.Function) externalFn {
 			return nil
 		}
 	}
+	if name == "strings.TrimSpace" {
+		native := bridgeCall(name, nativeBridge[name])
+		return func(m *Machine, caller *frame, fn *ssa.Function, args []value) value {
+			if sv, ok := args[0].(strV); ok && sv.sym != nil {
+				return m.trimSpaceSym(sv)
+			}
+			return native(m, caller, fn, args)
+		}
+	}
 	if nf, ok := nativeBridge[name]; ok {
 		return bridgeCall(name, nf)
 	}
@@ -1243,4 +1252,27 @@ func timeExt(m *Machine, v value) *Term {
 		m.abort("time.Time value of unexpected shape %T", v)
 	}
 	return m.asTerm(t[1])
+}
+
+// trimSpaceSym: strings.TrimSpace on a string with symbolic bytes (concrete length). The bytes at the
+// two ends are case-split: ASCII white space (\t \n \v \f \r and space) is trimmed, any other ASCII
+// byte stops the trimming; a byte >= 0x80 at a trimming boundary would need rune decoding (U+0085,
+// U+00A0, U+2000...) and is cut as outside the bound.
+func (m *Machine) trimSpaceSym(sv strV) value {
+	bs := sv.Bytes()
+	isSpace := func(b *Term) bool {
+		if m.branch(tCmp("bvuge", b, mkConst(8, 0x80))) {
+			m.outside("strings.TrimSpace: non-ASCII byte at a trimming boundary")
+		}
+		sp := tOr(tEq(b, mkConst(8, ' ')), tAnd(tCmp("bvuge", b, mkConst(8, 9)), tCmp("bvule", b, mkConst(8, 13))))
+		return m.branch(sp)
+	}
+	lo, hi := 0, len(bs)
+	for lo < hi && isSpace(bs[lo]) {
+		lo++
+	}
+	for hi > lo && isSpace(bs[hi-1]) {
+		hi--
+	}
+	return strFromTerms(append([]*Term(nil), bs[lo:hi]...), sv.taint)
 }
